@@ -1,0 +1,94 @@
+//! Seeded replacement for `rand::random()`. Each logical endpoint owns an independent SplitMix64
+//! stream; the simulator selects the stream before calling into an endpoint. Explicit values can
+//! be queued (used to steer handshake nonces next to sequence wrap-around).
+
+use std::cell::RefCell;
+use std::collections::VecDeque;
+
+struct Streams {
+    states: Vec<u64>,
+    current: usize,
+    forced_u32: VecDeque<u32>,
+    draws: u64,
+}
+
+thread_local! {
+    static STREAMS: RefCell<Streams> = RefCell::new(Streams {
+        states: vec![0x9E3779B97F4A7C15],
+        current: 0,
+        forced_u32: VecDeque::new(),
+        draws: 0,
+    });
+}
+
+fn splitmix(state: &mut u64) -> u64 {
+    *state = state.wrapping_add(0x9E3779B97F4A7C15);
+    let mut z = *state;
+    z = (z ^ (z >> 30)).wrapping_mul(0xBF58476D1CE4E5B9);
+    z = (z ^ (z >> 27)).wrapping_mul(0x94D049BB133111EB);
+    z ^ (z >> 31)
+}
+
+/// Re-seeds `count` independent streams from `seed` and selects stream 0.
+pub fn reset(seed: u64, count: usize) {
+    STREAMS.with(|s| {
+        let mut s = s.borrow_mut();
+        let mut root = seed ^ 0xD1B54A32D192ED03;
+        s.states = (0..count.max(1)).map(|_| splitmix(&mut root)).collect();
+        s.current = 0;
+        s.forced_u32.clear();
+        s.draws = 0;
+    });
+}
+
+/// Selects the stream used by subsequent draws on this thread.
+pub fn select(stream: usize) {
+    STREAMS.with(|s| {
+        let mut s = s.borrow_mut();
+        let n = s.states.len();
+        s.current = stream % n;
+    });
+}
+
+/// Queues a value to be returned by the next `random::<u32>()` call (any stream).
+pub fn force_next_u32(value: u32) {
+    STREAMS.with(|s| s.borrow_mut().forced_u32.push_back(value));
+}
+
+/// Number of values drawn since the last reset.
+pub fn draws() -> u64 {
+    STREAMS.with(|s| s.borrow().draws)
+}
+
+fn next_u64() -> u64 {
+    STREAMS.with(|s| {
+        let mut s = s.borrow_mut();
+        s.draws += 1;
+        let cur = s.current;
+        splitmix(&mut s.states[cur])
+    })
+}
+
+pub trait VerifRandom {
+    fn verif_random() -> Self;
+}
+
+impl VerifRandom for bool {
+    fn verif_random() -> Self {
+        next_u64() >> 63 != 0
+    }
+}
+
+impl VerifRandom for u32 {
+    fn verif_random() -> Self {
+        let forced = STREAMS.with(|s| s.borrow_mut().forced_u32.pop_front());
+        if let Some(v) = forced {
+            return v;
+        }
+        (next_u64() >> 32) as u32
+    }
+}
+
+pub fn random<T: VerifRandom>() -> T {
+    T::verif_random()
+}
